@@ -77,8 +77,24 @@ def describe_event(ev):
     return 'model marker %s' % (p[:3],)
 
 
+MARKERS = {-2: 'the recorded answers ran out: the resumption asks more than the implementation did',
+           -3: 'the model of a Rust panic was evaluated (grid_no_panic fails) on a case the implementation did not panic on',
+           -4: 'the case does not decode', -5: 'recorded answers left over: the resumption asks less than the implementation did'}
+
+
+def marker_of(model):
+    """The runner's marker in a model result (Model/GridAlgRun.v: a negative integer where an event tag 0 / 1 / 2 is expected), or None."""
+    for e in events(model):
+        if e[0] == 'X':
+            return e[2][0] if e[2] else -4
+    return None if model else -4
+
+
 def compare(impl, model):
-    """-> (structural_ok, exact_ok, message)"""
+    """-> (structural_ok, exact_ok, message).  A marker of the runner is never a match: it is a STRUCTURAL disagreement."""
+    mk = marker_of(model)
+    if mk is not None:
+        return False, False, 'the runner printed the marker %s (%s); model result %s...' % (mk, MARKERS.get(mk, 'not an event'), model[:6])
     a, b = events(impl), events(model)
     sa, sb = [skeleton(e) for e in a], [skeleton(e) for e in b]
     if sa != sb:
@@ -193,8 +209,12 @@ def gridalg_k(rep, pid, binp, seed, n, family=0, timeout=600, payload_is_broken=
     reported = 0
     npay_logged = 0
     nev = 0
+    nmark = {}
     for c, a, b in zip(cases, impl, model):
         s_ok, e_ok, msg = compare(a, b)
+        mk = marker_of(b)
+        if mk is not None:
+            nmark[str(mk)] = nmark.get(str(mk), 0) + 1
         nstruct += s_ok
         nexact += e_ok
         nev += len(events(a))
@@ -211,7 +231,7 @@ def gridalg_k(rep, pid, binp, seed, n, family=0, timeout=600, payload_is_broken=
             log('[%s] grid resumption K: payload-only disagreement (reported by ./check C09): %s' % (pid, msg[:300]))
     rep.cov['evaluations'] = rep.cov.get('evaluations', 0) + len(cases)
     res = {'cases': len(cases), 'family': family, 'skipped_panics': int(done.group(2)), 'structure_agrees': nstruct, 'bit_exact': nexact,
-           'payload_only_disagreements': nstruct - nexact, 'payload_disagreement_fails_this_check': payload_is_broken,
+           'runner_markers': nmark, 'payload_only_disagreements': nstruct - nexact, 'payload_disagreement_fails_this_check': payload_is_broken,
            'events': nev, 'compute_size_cases': int(done.group(4)),
            'compute_size_cases_with_a_PerformLayout_query': int(done.group(5)),
            'features': feats, 'distinct_with_child_traffic': len(distinct)}
